@@ -180,3 +180,41 @@ package datastore
 //@   ensures reader_error_is_returned: called(handleGetDataUpdatesSTRING) ==> r0 == callres(handleGetDataUpdatesSTRING)
 //@   ensures a_valid_request_is_read: knownEncoding(enc) && !intendedState && npaths == 0 ==>
 //@            called(handleGetDataUpdatesSTRING) || called(handleGetDataUpdatesJSON) || called(handleGetDataUpdatesPROTO)
+
+// ---------------------------------------------------------------------------
+// C15: one deviation cycle is bracketed by START and END on every path through runDeviationUpdate, whatever the stores
+// hold and whichever reads fail: START messages, then UPDATE messages, then END messages, and with at least one client
+// the first message is a START and the last one an END.
+//@ event DevSend(Int, Int)
+//@ iface (google.golang.org/grpc.ServerStreamingServer[sdc-protos/sdcpb.WatchDeviationResponse]).Send
+//@   params m
+//@   emits DevSend(m.Event, m.Reason)
+
+//@ pred devPhase(e) = ite(evarg(e, DevSend, 0) == sdcpb.DeviationEvent_START, 0, ite(evarg(e, DevSend, 0) == sdcpb.DeviationEvent_END, 2, 1))
+//@ pred allAtMost(from, to, ph) = forall(i, from, to, isev(emitted(i), DevSend) && devPhase(emitted(i)) <= ph)
+//@ pred ordered(from, to) = forall(i, from, to, forall(j, i, to, devPhase(emitted(i)) <= devPhase(emitted(j))))
+//@ pred startedIfClients(t0, dm) = len(dm) > 0 ==> ntrace() > t0 && devPhase(emitted(t0)) == 0
+//@ pred midCycle(t0, dm) = ntrace() >= t0 && allAtMost(t0, ntrace(), 1) && ordered(t0, ntrace()) && startedIfClients(t0, dm)
+//@ func (*Datastore).runDeviationUpdate
+//@   props C15
+//@   nosafety only the message order is claimed here
+//@   cutloops
+//@   noautoframe
+//@   requires d != nil && d.cacheClient != nil && d.schemaClient != nil && d.md != nil && d.config != nil
+//@   ensures phases_in_order: ordered(old(ntrace()), ntrace()) && allAtMost(old(ntrace()), ntrace(), 2)
+//@   ensures starts_with_start: len(dm) > 0 ==> ntrace() > old(ntrace()) && devPhase(emitted(old(ntrace()))) == 0
+//@   ensures ends_with_end: len(dm) > 0 ==> ntrace() > old(ntrace()) && devPhase(emitted(ntrace() - 1)) == 2
+//@   loop 0 invariant only_starts_so_far: ntrace() >= old(ntrace()) && allAtMost(old(ntrace()), ntrace(), 0) && (len($visited) > 0 ==> ntrace() > old(ntrace()))
+//@   loop 9 invariant updates_after_starts: midCycle(old(ntrace()), dm)
+//@   loop 1 invariant updates_after_starts_unhandled: midCycle(old(ntrace()), dm)
+//@   loop 1 invariant unhandled_only_without_intents [C15]: len(callres(Read)) == 0
+//@   loop 2 invariant updates_after_starts_not_applied: midCycle(old(ntrace()), dm)
+//@   loop 2 invariant not_applied_only_when_running_differs [C15]: len(callres(Read)) > 0 && !callres(EqualTypedValues, 0)
+//@   loop 3 invariant updates_after_starts_lower_intents: midCycle(old(ntrace()), dm)
+//@   loop 4 invariant overruled_only_when_values_differ [C15]: !callres(EqualTypedValues, 1)
+//@   loop 4 invariant updates_after_starts_overruled: midCycle(old(ntrace()), dm) && $n_loop3 >= 0 && $n_loop3 < $len_loop3
+//@   loop 5 invariant updates_after_starts_missing: midCycle(old(ntrace()), dm)
+//@   loop 6 invariant updates_after_starts_missing_intents: midCycle(old(ntrace()), dm)
+//@   loop 7 invariant updates_after_starts_missing_clients: midCycle(old(ntrace()), dm) && $n_loop6 >= 0 && $n_loop6 < $len_loop6
+//@   loop 8 invariant ends_last: ntrace() >= old(ntrace()) && allAtMost(old(ntrace()), ntrace(), 2) && ordered(old(ntrace()), ntrace()) && startedIfClients(old(ntrace()), dm) &&
+//@            (len($visited) > 0 ==> devPhase(emitted(ntrace() - 1)) == 2)
